@@ -207,6 +207,9 @@ def splice_item(rel, prefix, opts=None):
         raise ExtractError("item `%s` has no end" % prefix)
     code = strip_comments_and_attrs(text[m.start():end])
     d = ["item `%s`: attributes (derives) and comments" % prefix]
+    if opts and opts.get("vis") == "strip":
+        code = re.sub(r"^pub(\([a-z:]+\))?\s+", "", code)
+        d.append("item `%s`: visibility qualifier" % prefix)
     if opts and opts.get("derive"):
         # keep the listed derives, provided the original item really derives them (looked up in the
         # attribute lines directly above the item); `Structural` is Verus' marker for structural ==
@@ -219,9 +222,6 @@ def splice_item(rel, prefix, opts=None):
         code = "#[derive(%s)]\n%s" % (", ".join(want), code)
         d[0] = "item `%s`: attributes and comments, except derive(%s) kept from the source%s" % (
             prefix, ", ".join(x for x in want if x != "Structural"), " (+ Verus marker Structural)" if "Structural" in want else "")
-    if opts and opts.get("vis") == "strip":
-        code = re.sub(r"^pub(\([a-z:]+\))?\s+", "", code)
-        d.append("item `%s`: visibility qualifier" % prefix)
     for pair in [p for p in (opts or {}).get("subst", "").split(";;") if p]:
         a, b = pair.split("=>", 1)
         if a not in code:
